@@ -185,8 +185,8 @@ Print Assumptions C07_no_silent_loss.
    the loop thread writes both packets; the blocked picks (lock held, loop parked) are skipped *)
 Example C07_nonvacuous_steady :
   let s := [Pub 0; Pub 1] ++ repeat (Pub 0) 5 ++ repeat (Pub 1) 7 ++
-           [Pub 0; Pub 1; Pub 0; Pub 1; Loop; Pub 0; Loop; Loop; Pub 1; Loop; Loop; Loop; Loop; Loop; Pub 0; Pub 1;
-            Loop; Loop; Loop; Loop; Loop; Loop; Timeout] in
+           [Pub 0; Pub 1; Pub 0; Pub 1; Loop; Pub 0; Loop; Loop; Pub 1; Loop; Loop; Loop; Loop; Loop; Loop; Pub 0; Pub 1;
+            Loop; Loop; Loop; Loop; Loop; Loop; Loop; Timeout] in
   let c0 := init_steady 65534 [1%nat; 1%nat] in
   let c := sched_run s c0 in
   map results (pubs c) = [[(0%nat, 65535, true)]; [(0%nat, 1, true)]] /\
@@ -205,7 +205,7 @@ Example C07_nonvacuous_reconnect :
 Proof. exact old_witnesses_now_hold. Qed.
 
 Example C07_nonvacuous_marked :
-  let s := repeat (Pub 0) 8 ++ repeat Loop 12 in
+  let s := repeat (Pub 0) 8 ++ repeat Loop 16 in
   let c := sched_run s (init_reconnect 0 [1%nat]) in
   marked c = [Publish 0 0 1] /\ wire c = [(1, Connect 1); (2, Connect 2)] /\ conserved c = true.
 Proof. exact drained_packet_is_marked. Qed.
